@@ -1261,6 +1261,11 @@ func conv(t_dst, t_src types.Type, x value) value {
 			panic(engineError{"conversion of unsafe.Pointer to " + t_dst.String()})
 		}
 		if bd, ok := ut_dst.(*types.Basic); ok && bd.Kind() == types.UnsafePointer {
+			if ut_src.Kind() == types.Uintptr {
+				// unsafe.Pointer(uintptr(n)): an integer passed in a pointer-typed parameter
+				// (the SIMD wrappers pass the vector length this way); never dereferenced
+				return fakePointer(asInt64(widen(x)))
+			}
 			panic(engineError{"conversion of " + t_src.String() + " to unsafe.Pointer"})
 		}
 		x = widen(x)
